@@ -271,7 +271,12 @@ def run_errors(ctx, spec):
 
 PARSE_PHASE_ERRORS = [("syntax-error-at-end", "struct ErrP { x: int32, x"), ("tag-overflow", "struct ErrQ { tag(5000000000) a: bool? }"),
                       ("lexer-error", "struct ErrR { a: $ }"), ("preprocessor-error", "#if\nstruct ErrS {}\n#endif"),
-                      ("missing-brace", "struct ErrT { a: bool"), ("bad-literal", "enum ErrU : uint8 { A = 0xZZ }")]
+                      ("missing-brace", "struct ErrT { a: bool"), ("bad-literal", "enum ErrU : uint8 { A = 0xZZ }"),
+                      ("tag-negative", "struct ErrV { tag(-1) a: bool? }"),
+                      ("enumerator-overflow", "enum ErrW : uint8 { A = 999999999999999999999999999999999999999999 }")]
+
+
+GRAMMATICAL = {"tag-overflow", "tag-negative", "enumerator-overflow"}   # the file is read to its end; an action reports the error
 
 
 def run_parse_errors(ctx, spec):
@@ -285,9 +290,10 @@ def run_parse_errors(ctx, spec):
         for slot in ["file"] + tpl["in"][:2]:
             for ename, err in PARSE_PHASE_ERRORS:
                 for where in ("same-file", "other-file-after", "other-file-before"):
-                    if slot == "file" and where == "same-file":
-                        # a file that fails to parse has no file attributes (they are attached when its parse completes): the
-                        # statement's "allow attribute on the file" presupposes a file that was parsed
+                    if slot == "file" and where == "same-file" and ename not in GRAMMATICAL:
+                        # a file whose text is not a Slice file has no file attributes (the parser hands them over when it
+                        # reaches the end of the file): "an allow attribute on the file" presupposes a file that could be read
+                        # to its end. Errors reported *while* a grammatical file is parsed (a tag out of range) are demanded.
                         continue
                     for suppressed in (True, False):
                         texts = fill(tpl, slot, tpl["lint"]) if suppressed else fill(tpl, None, "")
@@ -436,7 +442,7 @@ def run_request(ctx, spec):
             with open(os.path.join(d, "f%d.slice" % i), "w") as f:
                 f.write(tx)
             names.append("f%d.slice" % i)
-        os.symlink(ctx.paths["fakegen"], os.path.join(d, "gen-ok-c13"))
+        core.link_tool(ctx.paths["fakegen"], os.path.join(d, "gen-ok-c13"))
         with open(os.path.join(log, "gen-ok-c13.reply"), "wb") as f:
             f.write(wire.enc_reply([]))
         res = ctx.run_slicec(names + extra + ["-G", "./gen-ok-c13"], cwd=d, env={"FAKEGEN_LOG": log})
